@@ -30,6 +30,9 @@ func c17(c *Ctx) {
 	c17lossless(c)
 	c17perCall(c)
 	c17mapStored(c)
+	c17decoderModel(c)
+	c17positional(c)
+	c17fold(c)
 	if n := c.freshPerIteration("C17.R5", "core/mapping"); n < 2 {
 		c.R.Undecided("C17.R5", "core/mapping#fresh", "per-iteration stores of reflect.New targets are recognised", fmt.Sprintf("%d found", n))
 	}
